@@ -946,7 +946,8 @@ def gen_stage(rng, kind, shape, n, allow_terminal=True, streaming_only=False, ce
     if k == "listOf":
         if kind not in ("seq", "iter"):
             return ("toList",), "seq", shape, n
-        return ("listOf", tuple(gen_values(rng, shape, rng.randrange(0, 3)))), "seq", ("other" if kind == "seq" else shape), n + 2
+        # whether the receiver is spliced or nested depends on its run-time kind: element shape unknown afterwards
+        return ("listOf", tuple(gen_values(rng, shape, rng.randrange(0, 3)))), "seq", "other", n + 2
     if k == "unpackNamed":
         return ("unpackNamed", rng.choice([1, 2, 2, 3, max(1, min(n, 4)), max(1, min(n, 4))])), "scalar", "other", 0
     if k == "unpackIdx":
